@@ -932,3 +932,88 @@ example : offsetFromAxes ⟨-1/4, 5/4, 6, false, false⟩ ⟨0, 1, 4, false, fal
   have h : shiftCells ⟨-1/4, 5/4, 6, false, false⟩ ⟨0, 1, 4, false, false⟩ = ((1 : Int) : Rat) := by
     norm_num [shiftCells, Axis.gridMin, Axis.cell]
   unfold offsetFromAxes; simp only [h]; simp
+
+/-! ### ROUND 4: `_offset_from_spaces` with the rounding and the tolerances of the code
+(`offsetFromAxesTol`, driver op `offsptol`, stream `tolerance`) -/
+
+/-- **What the code accepts is aligned up to the tolerance.**  If `_offset_from_spaces` as coded
+(`np.around`, `np.isclose` with tolerances `rtol`, `atol`) returns the offset `k` for one axis,
+then on a resized axis `k` is a NEAREST integer to the shift `s` of the two grids in cells, the
+misalignment `|s - k|` is at most `atol + rtol·|s|`, and `k ≤ |n_ran - n_dom|`; on an axis of
+unchanged length `k = 0` and the grids differ by at most `atol` cells.  (So the copied block
+sits on grid points that coincide up to that fraction of a cell; the tolerance grows with the
+offset itself — see the example below.) -/
+theorem C16.offset_tol_aligned (rtol atol : Rat) (dom ran : Axis Rat) (k : Nat)
+    (h : offsetFromAxesTol rtol atol dom ran = .ok k) :
+    (dom.n ≠ ran.n → |shiftCells dom ran - k| ≤ atol + rtol * |shiftCells dom ran| ∧
+      |shiftCells dom ran - k| ≤ 1 / 2 ∧ k ≤ ((ran.n : Int) - dom.n).natAbs) ∧
+    (dom.n = ran.n → k = 0 ∧ |shiftCells dom ran| ≤ atol) := by
+  unfold offsetFromAxesTol at h
+  simp only at h
+  split_ifs at h with h0 h1 h2 h3
+  · simp only [Except.ok.injEq] at h
+    have hc := (isClose_iff ..).1 h1
+    have hk : ((k : Int)) = roundHalfEven (shiftCells dom ran) := by omega
+    have hkq : (k : Rat) = ((roundHalfEven (shiftCells dom ran) : Int) : Rat) := by
+      rw [← hk]; simp
+    refine ⟨fun _ => ⟨?_, ?_, by omega⟩, fun hh => absurd hh h0⟩
+    · rw [hkq, abs_sub_comm]; exact hc
+    · rw [hkq]; exact roundHalfEven_near _
+  · simp only [Except.ok.injEq] at h
+    have hc := (isClose_iff ..).1 h3
+    refine ⟨fun hh => absurd hh h0, fun _ => ⟨h.symm, ?_⟩⟩
+    simpa using hc
+
+/-- **Exactly aligned grids are accepted by the code as coded, with the same offset**: whenever
+the exact-arithmetic `_offset_from_spaces` of the model (`offsetFromAxes`, the subject of
+`C16.offset_from_spaces_aligned/_roundtrip/inverse_offset_same`) accepts with offset `k`, so
+does the version with `np.around`/`np.isclose`, for all non-negative tolerances. -/
+theorem C16.offset_tol_accepts_exact (rtol atol : Rat) (hr : 0 ≤ rtol) (ha : 0 ≤ atol)
+    (dom ran : Axis Rat) (k : Nat) (h : offsetFromAxes dom ran = .ok k) :
+    offsetFromAxesTol rtol atol dom ran = .ok k := by
+  unfold offsetFromAxes at h
+  unfold offsetFromAxesTol
+  simp only
+  split_ifs at h with h0 hg h1 h2
+  · simp only [Except.ok.injEq] at h
+    have hs : shiftCells dom ran = 0 := by simp [shiftCells, hg]
+    have hcl : isClose rtol atol (shiftCells dom ran) 0 = true := by
+      rw [isClose_iff, hs]; simpa using ha
+    rw [if_neg (not_not.2 h0), if_neg (not_not.2 hcl), h]
+  · simp only [Except.ok.injEq] at h
+    simp only [ne_eq, not_not] at h1
+    have hq : ((shiftCells dom ran).num : Rat) = shiftCells dom ran :=
+      Rat.coe_int_num_of_den_eq_one h1
+    have hrd : roundHalfEven (shiftCells dom ran) = (shiftCells dom ran).num := by
+      rw [← hq, roundHalfEven_int, hq]
+    have hcl : isClose rtol atol ((shiftCells dom ran).num : Rat) (shiftCells dom ran) = true := by
+      rw [isClose_iff, hq, sub_self, abs_zero]
+      exact add_nonneg ha (mul_nonneg hr (abs_nonneg _))
+    rw [if_pos h0, hrd, if_neg (not_not.2 hcl), if_neg h2, h]
+
+/-- non-vacuity and the shape of the tolerance (`rtol = 1e-5`, `atol = 1e-8`): a range that is
+misaligned by `2⁻²⁰ ≈ 9.5e-7` cells is accepted when it starts ONE cell to the left of the
+domain (offset 1), and refused when it starts (almost) at the same point (offset 0) -/
+example : offsetFromAxesTol (1 / 100000) (1 / 100000000) ⟨0, 1, 4, false, false⟩
+    ⟨-1 / 4 - 1 / 4194304, 5 / 4 - 1 / 4194304, 6, false, false⟩ = .ok 1 := by
+  have h : shiftCells ⟨0, 1, 4, false, false⟩
+      ⟨-1 / 4 - 1 / 4194304, 5 / 4 - 1 / 4194304, 6, false, false⟩ = 1 + 1 / 1048576 := by
+    norm_num [shiftCells, Axis.gridMin, Axis.cell]
+  have hr : roundHalfEven (1 + 1 / 1048576 : Rat) = 1 :=
+    roundHalfEven_eq_of_near _ 1 (by rw [abs_lt]; constructor <;> norm_num)
+  have hc : isClose (1 / 100000) (1 / 100000000) ((1 : Int) : Rat) (1 + 1 / 1048576) = true := by
+    rw [isClose_iff, abs_of_pos (show (0 : Rat) < 1 + 1 / 1048576 by norm_num), abs_le]
+    constructor <;> norm_num
+  unfold offsetFromAxesTol; simp only [h, hr, hc]; simp
+example : offsetFromAxesTol (1 / 100000) (1 / 100000000) ⟨0, 1, 4, false, false⟩
+    ⟨- 1 / 4194304, 5 / 4 - 1 / 4194304, 5, false, false⟩ = .error .notMultiple := by
+  have h : shiftCells ⟨0, 1, 4, false, false⟩
+      ⟨- 1 / 4194304, 5 / 4 - 1 / 4194304, 5, false, false⟩ = 1 / 1048576 := by
+    norm_num [shiftCells, Axis.gridMin, Axis.cell]
+  have hr : roundHalfEven (1 / 1048576 : Rat) = 0 :=
+    roundHalfEven_eq_of_near _ 0 (by rw [abs_lt]; constructor <;> norm_num)
+  have hc : isClose (1 / 100000) (1 / 100000000) ((0 : Int) : Rat) (1 / 1048576) = false := by
+    rw [Bool.eq_false_iff, Ne, isClose_iff, not_le,
+      abs_of_pos (show (0 : Rat) < 1 / 1048576 by norm_num)]
+    norm_num [abs_of_pos]
+  unfold offsetFromAxesTol; simp only [h, hr, hc]; simp
